@@ -313,7 +313,7 @@ def validate(sc: dict) -> None:
             elif k == "capacity":
                 if not 0 <= f["node"] < len(nodes) or nodes[f["node"]]["kind"] != "holder":
                     raise InvalidScenario("capacity target")
-                if not 0.0 < f["factor"] < 1.0:
+                if not 0.05 <= f["factor"] < 1.0:
                     raise InvalidScenario("factor")
                 n = nodes[f["node"]]
                 if max(n["amount"], n["co_amount"]) > n["cap"] * f["factor"]:
@@ -332,7 +332,7 @@ def validate(sc: dict) -> None:
                         raise InvalidScenario("fault on missing link")
                     if k == "latency" and f["extra_ms"] < 1:
                         raise InvalidScenario("extra")
-                    if k == "loss" and not 0.0 < f["rate"] <= 1.0:
+                    if k == "loss" and not 0.05 <= f["rate"] <= 1.0:
                         raise InvalidScenario("rate")
     except (KeyError, TypeError, IndexError, ValueError, AttributeError) as exc:
         raise InvalidScenario(f"malformed scenario: {exc!r}") from None
@@ -631,6 +631,15 @@ class FaultWorld:
         where = f"{name} ({kind}) {what} m={m} at t={t}ns inside window(s) " + ", ".join(
             f"{w[3]}#{w[2]}[{w[0]},{'inf' if w[1] >= INF else w[1]})" for w in active)
         if kind == "server":
+            # the facade accepted this job while a window was active?  then the flag was down (overlap etc.),
+            # which is a different mechanism from "work queued before the window keeps flowing"
+            mm = m[0] if isinstance(m, list) else m
+            arr = self.job_times[name].get(mm)
+            if arr is not None and not self.tl.is_boundary(key, arr) and self.tl.active(key, arr):
+                sig = self._attr(key, arr, "NodeFault", "missing")
+                if sig.startswith("not-in-effect"):
+                    sig = f"down-target-ran/{kind}/{fk}" + sig[len("not-in-effect/NodeFault"):]
+                raise Violation(f"{P}/{sig}", f"facade accepted job m={mm} at t={arr}ns inside a window; " + where)
             raise Violation(f"{P}/queued-target-not-frozen/QueuedResource/{what}",
                             "queue-fronted target kept working while crashed/paused: " + where)
         if what == "resume":
@@ -698,6 +707,13 @@ class FaultWorld:
                     raise Violation(f"{P}/bystander-state-changed/Resource/accounting",
                                     f"{rname}: available {res.available} + held {h} != capacity {cfg}")
                 how = "available-exceeds" if tot > cfg else "available-short"
+                ws = self.tl.w[key]
+                if any(a[2] != b[2] and a[0] <= b[1] and b[0] <= a[1] for a in ws for b in ws):
+                    # windows on this resource overlapped or touched: the books are off because each
+                    # ReduceCapacity edge assumes it is alone (same root cause as overlap-clears)
+                    raise Violation(f"{P}/overlap-clears/ReduceCapacity/accounting-after-overlap",
+                                    f"{rname} at t={t}ns after overlapping ReduceCapacity windows: available="
+                                    f"{res.available} + held={h} != configured capacity {cfg}")
                 raise Violation(f"{P}/capacity-restore-accounting/ReduceCapacity/{how}",
                                 f"{rname} at t={t}ns, every ReduceCapacity window over: available={res.available} + "
                                 f"held={h} != configured capacity {cfg}")
@@ -760,7 +776,7 @@ class FaultWorld:
                         raise Violation(f"{P}/not-restored/InjectPacketLoss/packet_loss_rate",
                                         f"{link.name}.packet_loss_rate={obs} at t={t}ns after every window ended "
                                         f"(configured {loss0})")
-                    sig = self._attr(key, t, "InjectPacketLoss", symptom)
+                    sig = self._attr(key, t, "InjectPacketLoss", symptom, allow_start=True)
                     raise Violation(f"{P}/{sig}", f"{link.name}.packet_loss_rate={obs} at t={t}ns, expected {want} "
                                     f"(active windows {[w[2] for w in active]})")
             # latency object
